@@ -9,7 +9,7 @@ from wpilib.simulation import DriverStationSim as DS
 from robotpy_ext.autonomous import AutonomousModeSelector
 
 rnd = random.Random(int(os.environ.get("VERIF_SEED", "0")))
-N = int(os.environ.get("C14_TRIALS", "120"))
+N = int(os.environ.get("C14_TRIALS", "120")) * int(os.environ.get("VERIF_SCALE", "1"))
 root = tempfile.mkdtemp(prefix="c14_")
 sys.path.insert(0, root)
 LOG = []
